@@ -280,6 +280,36 @@ def rule_node_types(ctx):
             else:
                 ctx.bad("M5", "compute_variable_info:field-inherits-hidden-child", "a field over a hidden rule takes its types from `%s` but its quantity from `%s` (%s): nodes listed among the field's types are not counted, "
                         "so node-types.json claims `multiple: false` (or `required`) for a field that holds several of them" % (sorted(kinds_t), sorted(kinds_q), fn.loc(inh_q[0][0])))
+    # M6: inherited fields are remembered for *every* hidden child that has fields — auxiliary repeat rules included
+    F_ = F
+    fn = find_fn(ctx, F_, "ParseTableBuilder::add_actions", "M6") or next((f for f in F_.fn_list if f.name.endswith("::add_actions")), None)
+    if fn:
+        sts = [pt for pt, e in fn.points() for x in own_walk(e) if x.get("k") == "assign" and "has_preceding_inherited_fields" in show(x["l"]) and strip(x["r"]).get("k") == "int" and strip(x["r"]).get("v")]
+        key = "add_actions:inherited-fields-also-for-auxiliary-rules"
+        if not sts:
+            ctx.bad("M6", key, "add_actions no longer sets has_preceding_inherited_fields")
+        else:
+            text_gate(ctx, "M6", fn, sts, [("an item is marked only for a hidden child…", [(("is_hidden(",), True)]), ("…that has fields", [(("is_empty(", "fields"), False)])], accept_desc="marking the item as having inherited fields")
+            reached = {"aux": False}
+
+            class Feas(Monitor):
+                def elem(self, m, pt, e, s):
+                    if pt in sts and m:
+                        reached["aux"] = True
+                    return m
+
+                def edge(self, m, bid, edge, cond, truth, s):
+                    if cond is not None and truth is not None:
+                        txt, t = rsrules.cond_text(fn, cond, truth)
+                        if "is_auxiliary(" in txt:
+                            return bool(t)
+                    return m
+            Search(fn, Feas(), budget=3000000).run(False)
+            if reached["aux"]:
+                ctx.ok("M6", key, "the mark is also reachable for an auxiliary (repeat) rule: `is_hidden()` covers auxiliary variables, whose content may carry field(...)")
+            else:
+                ctx.bad("M6", key, "has_preceding_inherited_fields is set only when the child is *not* auxiliary: a repeat whose content has field(...) no longer keeps productions apart that differ in where "
+                        "it sits, they share one REDUCE, and by-field lookup on the losing production finds nothing although node-types.json calls the field required")
     # M4: a named token that shares its kind with a rule has no children and no fields that are required
     fn = find_fn(ctx, F, "node_types::build_token_entries", "M4")
     if fn:
